@@ -11,7 +11,6 @@ import (
 	"errors"
 	"fmt"
 	"math"
-	"os"
 	"slices"
 	"strconv"
 	"strings"
@@ -431,7 +430,9 @@ Level:
 		switch trimmed {
 		case "help":
 			osenv.Logf("TODO: print --info/--debug help and exit")
-			os.Exit(0)
+			if err := osenv.Exit(0); err != nil {
+				return err
+			}
 		case "none":
 			lev = 0
 		case "all":
@@ -1366,7 +1367,10 @@ func (pc *Context) ParseArguments(osenv *rsyncos.Env, args []string) error {
 				switch opt {
 				case 'h':
 					fmt.Println(opts.DaemonHelp()) // tridge rsync prints help to stdout
-					os.Exit(0)                     // exit with code 0 for compatibility with tridge rsync
+					// exit with code 0 for compatibility with tridge rsync
+					if err := osenv.Exit(0); err != nil {
+						return err
+					}
 				case 'M':
 					return errNotYetImplemented
 
@@ -1491,10 +1495,14 @@ func (pc *Context) ParseArguments(osenv *rsyncos.Env, args []string) error {
 			return errNotYetImplemented
 
 		case OPT_INFO:
-			parseOutputWords(osenv, infoWords[:], opts.info[:], pc.poptGetOptArg(), USER_PRIORITY)
+			if err := parseOutputWords(osenv, infoWords[:], opts.info[:], pc.poptGetOptArg(), USER_PRIORITY); err != nil && osenv.NoExit {
+				return err
+			}
 
 		case OPT_DEBUG:
-			parseOutputWords(osenv, debugWords[:], opts.debug[:], pc.poptGetOptArg(), USER_PRIORITY)
+			if err := parseOutputWords(osenv, debugWords[:], opts.debug[:], pc.poptGetOptArg(), USER_PRIORITY); err != nil && osenv.NoExit {
+				return err
+			}
 
 		case OPT_USERMAP,
 			OPT_GROUPMAP,
@@ -1503,7 +1511,10 @@ func (pc *Context) ParseArguments(osenv *rsyncos.Env, args []string) error {
 
 		case OPT_HELP:
 			fmt.Println(opts.Help()) // tridge rsync prints help to stdout
-			os.Exit(0)               // exit with code 0 for compatibility with tridge rsync
+			// exit with code 0 for compatibility with tridge rsync
+			if err := osenv.Exit(0); err != nil {
+				return err
+			}
 
 		case 'A':
 			return fmt.Errorf("ACLs are not supported by gokrazy/rsync")
@@ -1526,18 +1537,25 @@ func (pc *Context) ParseArguments(osenv *rsyncos.Env, args []string) error {
 
 	if version_opt_cnt > 0 {
 		fmt.Println(version.Read())
-		os.Exit(0)
+		if err := osenv.Exit(0); err != nil {
+			return err
+		}
 	}
 
 	if opts.human_readable > 1 && len(args) == 1 /* && !am_server */ {
 		fmt.Println(opts.Help()) // tridge rsync prints help to stdout
-		os.Exit(0)               // exit with code 0 for compatibility with tridge rsync
+		// exit with code 0 for compatibility with tridge rsync
+		if err := osenv.Exit(0); err != nil {
+			return err
+		}
 	}
 
 	if err := opts.setOutputVerbosity(DEFAULT_PRIORITY); err != nil {
 		// TODO: plumb error
 		fmt.Println(err.Error())
-		os.Exit(1)
+		if err := osenv.Exit(1); err != nil {
+			return err
+		}
 	}
 
 	if opts.recurse != 0 {
